@@ -25,6 +25,7 @@ import TsdateVerif.Proofs.Passes
 import TsdateVerif.Proofs.ForcedOrder
 import TsdateVerif.Props.C13
 import TsdateVerif.Proofs.MaximizeOrder
+import TsdateVerif.Proofs.PassesRelabel
 
 namespace Tsdate.C11
 open Tsdate Tsdate.Order
@@ -190,6 +191,32 @@ theorem outside_order_indep (d : GridData α) (n : Nat) (ins : Nat → List α) 
     (fun e he => OrderDual.toDual_lt_toDual.mpr (hval e he))
 
 end Concrete
+
+section ConcreteRenumber
+variable {α : Type} [Inhabited α] [Field α] [LinearOrder α] [IsStrictOrderedRing α]
+
+/-- **Inside–outside is invariant under renumbering, on the concrete model**: the linear-space
+computation the check runs against the real code (`insideOutside`, no ignored root) gives, for the
+renumbered input traversed in any valid orders, the outside rows of the original input at the
+renumbered nodes (and the same holds for the inside rows, `insideOutside_renumber` being proved
+through them). -/
+theorem insideOutside_renumbering_invariant {τ : Type} [LinearOrder τ] (π σ : Nat → Nat) (n : Nat)
+    (hinj : ∀ u v, u < n → v < n → π u = π v → u = v) (hlt : ∀ u, u < n → π u < n)
+    (d d' : GridData α) (h : DataRelabel π σ n d d')
+    (rootfrac rootfrac' : Nat → α) (hrf : ∀ u, u < n → rootfrac' (π u) = rootfrac u) (std : Bool)
+    (insO outO insO' outO' : List DEdge)
+    (hvi : ValidFlat insO n) (hvo : ValidFlat outO n)
+    (hvi' : ValidFlat insO' n) (hvo' : ValidFlat outO' n)
+    (hpi : insO'.Perm (insO.map (relabelE π σ))) (hpo : outO'.Perm (outO.map (relabelE π σ)))
+    (time' : Nat → τ) (hti : ∀ e ∈ insO', time' e.src < time' e.dst)
+    (hto : ∀ e ∈ outO', time' e.dst < time' e.src) :
+    ∀ u, u < n →
+      aget (insideOutside d' n rootfrac' (fun _ => false) std insO' outO').2 (π u)
+        = aget (insideOutside d n rootfrac (fun _ => false) std insO outO).2 u :=
+  insideOutside_renumber π σ n hinj hlt d d' h rootfrac rootfrac' hrf _ _ (fun _ _ => rfl) std
+    insO outO insO' outO' hvi hvo hvi' hvo' hpi hpo time' hti hto
+
+end ConcreteRenumber
 
 /-! ### the forced pass of the constraint step -/
 
